@@ -194,7 +194,9 @@ func (li *loopInfo) classify() (shape string, desc string) {
 			if u, ok := in.(*ssa.UnOp); ok && u.Op == token.ARROW && u.CommaOk {
 				return "iterator", "" // range over a channel (H2)
 			}
-			if _, ok := in.(*ssa.Select); ok {
+			// an event loop waits in a blocking select; a select with a default branch only polls
+			// (its iteration does not wait for anything) and needs a progress argument of its own
+			if sel, ok := in.(*ssa.Select); ok && sel.Blocking {
 				return "select", ""
 			}
 		}
@@ -453,6 +455,14 @@ func checkLoopProgress(c *Ctx, fns []*ssa.Function) {
 
 // Reviewed termination arguments for loops whose progress is not of a recognised shape.
 var c09LoopTable = []c09LoopRow{
+	// ---- the consensus loop (reached through the block channel, hang rules only)
+	{fn: "pkg/consensus/liskbft.(*BFTVotes).getHeightNotPrevoted", exits: "builtin:len(p0.blockBFTInfos)", reason: "walk back over the generator's own blocks: every way round the pointer (maxHeightGenerated of the block reached) strictly descends — C01.R5 checks exactly that — and the loop leaves once the offset reaches the window length"},
+	{fn: "pkg/consensus/sync.(*Downloader).Start", exits: "builtin:len(consensus/sync.requestBlocksFromID(", reason: "every iteration returns (cancelled, request error, EMPTY reply, last block reached) or moves the start ID to the last block of a non-empty reply; the consumer validates each block against its tip and stops the downloader on the first that does not extend it, so a reply that does not advance ends the download too. The row requires the empty-reply exit (F48)"},
+	{fn: "pkg/consensus/sync.(*Syncer).Sync", exits: "fastSyncer).Sync(", reason: "the loop body runs once: fastSyncer.Sync never returns (false, nil) — every return carries done == true or an error"},
+	{fn: "pkg/consensus/sync.(*Syncer).Sync", exits: "blockSyncer).Sync(", reason: "the loop body runs once: blockSyncer.Sync returns (true, nil) or an error, never (false, nil)"},
+	{fn: "pkg/consensus/sync.(*blockSyncer).deleteTillCommonBlock", exits: ".Header.Height", reason: "each iteration reverts the tip (height decreases by one) or fails; the common block is one of the node's own blocks (height <= tip) and the reverter refuses at the finalized height, so the loop ends after at most tip − finalized iterations"},
+	{fn: "pkg/consensus/sync.(*fastSyncer).deleteTillCommonBlock", exits: ".Header.Height", reason: "as blockSyncer.deleteTillCommonBlock"},
+	{fn: "pkg/rpc.(*wsSocket).read", exits: "ReadMessage", reason: "per-connection service loop of the websocket server: every iteration blocks in conn.ReadMessage and the loop ends when the connection fails or is closed; a client that keeps sending requests is served, which is the purpose"},
 	{fn: "pkg/codec.(*Reader).ReadBytesArray", exits: "p0.index < p0.end", reason: "every iteration either leaves (key mismatch, error) or reads one key and one length-prefixed value: r.index grows by at least one byte and is bounded by r.end"},
 	{fn: "pkg/codec.(*Reader).ReadDecodables", exits: "p0.index < p0.end", reason: "as ReadBytesArray: each iteration consumes at least the key byte or leaves"},
 	{fn: "pkg/codec.convertUIntArray", exits: ">= p2", reason: "the inner loop subtracts toBits (> 0: the callers pass the constants 5 and 8) from the bit count until it is below toBits"},
